@@ -206,9 +206,11 @@ func newValueSetFromStruct(typ reflect.Type) (*ValueSet, error) {
 	for typ.Kind() == reflect.Ptr {
 		typ = typ.Elem()
 		ptrCount++
-	}
-	if ptrCount > 1 {
-		return nil, fmt.Errorf("struct argument can at most be a single pointer")
+
+		// Checked while counting, so that the counter can't wrap around.
+		if ptrCount > 1 {
+			return nil, fmt.Errorf("struct argument can at most be a single pointer")
+		}
 	}
 
 	// Verify our value is a struct
